@@ -10,6 +10,7 @@ import (
 	"sync"
 	"sync/atomic"
 	"testing"
+	"time"
 
 	"github.com/MixinNetwork/mixin/common"
 	"github.com/MixinNetwork/mixin/crypto"
@@ -101,7 +102,7 @@ func c26Concurrent(c *verifmc.Check) {
 	var conflicts atomic.Int64
 	c.ParallelN(len(scen), "C26 concurrent scenarios", func(_, i int) {
 		sc := &scen[i]
-		ex := &verifmc.Explorer{C: c, Bound: bound, Name: "concurrent:" + sc.name}
+		ex := &verifmc.Explorer{C: c, Bound: bound, Name: "concurrent:" + sc.name, StepTimeout: 3 * time.Minute}
 		ex.Body = func(s *verifmc.Sched, report func(key, desc string)) string {
 			l := light.newLedger("")
 			defer light.closeStore(l.Store)
